@@ -325,6 +325,11 @@ func c05Check(out *Out, cls string, originals []protoreflect.FileDescriptor) (re
 			k = "panic"
 		}
 		first := names[0]
+		if strings.HasPrefix(cls, "shapes:") && strings.Contains(err.Error(), "conflicts with default JSON name") {
+			// two fields with one JSON name: a descriptor set that no proto source text can express
+			out.Skip = "not expressible as proto source: " + errClass(err.Error())
+			return nil, false
+		}
 		out.V("C05|reparse-"+k+"|"+cls+"|"+errClass(err.Error()), "the printed text does not parse/link: %v\n--- %s ---\n%s", err, first, texts[first])
 		return nil, false
 	}
@@ -376,8 +381,14 @@ func c05Check(out *Out, cls string, originals []protoreflect.FileDescriptor) (re
 			if commentsOnly {
 				kind = "non-leading-comments"
 			}
-			out.V("C05|reprint-differs|"+kind+"|"+cls, "printing the re-parsed %s gives different text (%s) at %s", f.Path(), kind, where)
-			allOK = false
+			if strings.HasPrefix(cls, "shapes:") {
+				// descriptor sets built without any source information are neither compiled j5s nor files of the proto/ tree:
+				// how blank lines and nested declarations are laid out without positions is not what the statement fixes
+				out.D("C05-undemanded|reprint-differs|"+kind+"|"+cls, "printing the re-parsed %s gives different text (%s) at %s", f.Path(), kind, where)
+			} else {
+				out.V("C05|reprint-differs|"+kind+"|"+cls, "printing the re-parsed %s gives different text (%s) at %s", f.Path(), kind, where)
+				allOK = false
+			}
 		}
 	}
 	return linked, allOK
